@@ -99,7 +99,7 @@ def props_module(prop: str) -> str:
     return "Jap.Props.%s" % prop
 
 
-def build(ctx, targets=None):
+def build(ctx, targets=None, extractors=None):
     """Regenerate Gen/*, build the property module, audit axioms.
 
     A failed extraction or a failed build is a *broken tie* (ctx.tie_break), never an exception;
@@ -109,7 +109,7 @@ def build(ctx, targets=None):
     prop = ctx.prop
     with LeanLock():
         try:
-            problems = extract.regenerate()
+            problems = extract.regenerate(extractors)
         except Exception as ex:  # extractor cannot find what it extracts
             problems = ["extractor crashed: %r" % (ex,)]
         for pr in problems:
